@@ -189,3 +189,10 @@ pub fn eval_term<F: Fn(u64, u64) -> Hash>(t: &Value, leaf: &F) -> Hash {
 pub fn elem_leaf(pos: u64, d: u64) -> Hash {
 	Elem::of(d).hash_with_index(pos)
 }
+
+/// Panics in code under test are data: keep stderr quiet, the caller uses catch_unwind.
+pub fn quiet_panics() {
+	if std::env::var("VERIF_LOUD_PANICS").is_err() {
+		std::panic::set_hook(Box::new(|_| {}));
+	}
+}
